@@ -1048,6 +1048,7 @@ int main(int argc, char **argv)
         // constructors with unusual element sizes (zero is accepted and treated as one)
         for (size_t s : {(size_t)0, (size_t)1, (size_t)3, (size_t)16})
         {
+            vx::mark("constructor and destructor with element size", (uint64_t)s); // a crash here is a finding about the library
             shim::reset();
             Harness hh = h;
             hh.siz0 = s;
@@ -1069,6 +1070,7 @@ int main(int argc, char **argv)
             Ck ck;
             if (!L.c || !check_state(L, ck)) { vx::book().flush_counts(); vx::done(true, "constructor with element size 0 is broken; exploration of that size skipped"); return; }
         }
+        vx::mark(nullptr);
         xs::Explorer<Harness> ex(h);
         ex.job = h.job;
         ex.run();
